@@ -37,7 +37,7 @@ def _render_part(p, rng, single):
 
 
 def run(ctx):
-    repo.setup(extensions=False)
+    repo.setup()
     from TotalDepth.common import Slice as S
 
     M = ctx.pick(8, 12)
